@@ -34,7 +34,7 @@ def run_rules(pid, sources, only=None):
         fn(ctx)
         n = len(ctx.obs) - before
         floor = props.FLOORS.get(rid, 1)
-        if n < floor:
+        if n < floor and not any(not o.ok for o in ctx.obs[before:]):
             raise AnalysisError(rid, "-", f"rule produced {n} obligation instances, confirmed floor is {floor} (vacuous pass refused)")
     return ctx
 
@@ -58,10 +58,6 @@ def main(argv):
         if tier == "thorough":
             from sa.selftest import matrix
             selftest = matrix.run(pid, sources, seed)
-            if selftest["errors"]:
-                for e in selftest["errors"][:20]:
-                    print(f"ANALYSIS-ERROR property={pid} rule=selftest at={e['id']} reason={e['reason']}")
-                return 2
     except AnalysisError as e:
         print(f"ANALYSIS-ERROR property={pid} rule={e.rule} at={e.at} reason={e.reason}")
         return 2
@@ -134,6 +130,11 @@ def main(argv):
     }
     with open(os.path.join(HERE, "evidence", f"{pid}.json"), "w") as fh:
         json.dump(ev, fh, indent=1, default=str)
+    if selftest is not None and selftest.get("errors") and not violations:
+        # the checker failed its own two-way test on this tree: analysis broken, never a verdict
+        for e in selftest["errors"][:20]:
+            print(f"ANALYSIS-ERROR property={pid} rule=selftest at={e['id']} reason={e['reason']}")
+        return 2
     n_ok = cov["discharged"]
     print(f"property={pid} tier={tier} rules={len(per_rule)} obligations={len(ctx.obs)} discharged={n_ok} "
           f"known={len(knowns)} violations={len(violations)} wall={ev['wall_s']}s")
